@@ -334,8 +334,13 @@ def oracle(case, orig_elems, new_elems, so, sn, log=None):
         return None
     if not sn or 'error' in sn:
         kn = (case.get('args') or {}).get('keep_nodes')
+        a_ = case.get('args') or {}
         if sn and sn.get('error') == 'no ground' and kn is not None and '0' not in [str(k) for k in kn]:
             return None                  # the caller asked not to keep the reference node
+        if sn and sn.get('error') == 'no ground' and (a_.get('dangling') or a_.get('disconnected')):
+            # documented: "if there are no circuits ... all the components will be removed";
+            # what is left has no reference node and nothing to compare
+            return None
         return [('new-unsolvable', (sn or {}).get('error', 'no solution'))]
     orig = {e['name']: e for e in w['orig']}
     new = {e['name']: e for e in w['new']}
